@@ -33,7 +33,11 @@ MANIFEST = {
             "classes/functions on seeded inputs over all length classes, multi-call splits, guards and error paths; an independent "
             "straight-from-the-standard Python reference (hashlib/hmac only, own FIPS-197 AES) plus published vectors (RFC 8439, 6229, 2202, 4231, "
             "5869, 8448, FIPS-197, SP 800-38A/C/D) and the OpenSSL command line for 3DES as direct oracle on the implementation; AEAD open on every "
-            "single-bit modification of short sealed messages.",
+            "single-bit modification of short sealed messages. HISTORIES on one object run first: sequences of seal/open/encrypt/decrypt calls of "
+            "very different sizes (0 .. 2^16, counter-carry boundaries 254/255/256 blocks, directly set counters) on the SAME AEAD / CTR / CBC / RC4 "
+            "object, each result compared with the standard's value of that call alone, with a fresh object and with the Lean object model "
+            "(gcm_history_independent: any call history on an AESGCM object returns per call the one-shot value); callers' buffers must be left "
+            "unchanged and returned buffers are scribbled over between calls.",
     "note": "Trusted: Lean kernel (axioms propext, Classical.choice, Quot.sound), the correspondence harness, hashlib/hmac (MD5, SHA-1, SHA-2, "
             "HMAC of CPython/OpenSSL), the harness' own reference implementations (validated against the published vectors on every run), "
             "the OpenSSL CLI for 3DES-CBC. Block ciphers and hashes are PARAMETERS of the proved theorems (only output lengths and D(E b)=b are "
@@ -2111,7 +2115,7 @@ def part_histories(ctx, W):
 
 # ======================================================================================
 def run(ctx):
-    ctx.rule = ("per primitive: published vectors; seeded keys/nonces/AAD/messages over every listed length class "
+    ctx.rule = ("object histories first (never cut by a budget: this check has no time budget at all); per primitive: published vectors; seeded keys/nonces/AAD/messages over every listed length class "
                 "(0, partial block, exact blocks, several blocks), counters incl. the 32-bit edge, guards; AEAD open on every "
                 "single-bit modification of short sealed messages, nonce and AAD flips, truncations; distinct = distinct "
                 "(stage, all arguments); non-trivial = accepted argument lengths")
